@@ -102,6 +102,8 @@ class EnvironmentVariables(HoldableObject):
             self.envvars.append((method, name, values, separator))
             if name in self.unset_vars:
                 self.unset_vars.remove(name)
+        if not other.can_use_env:
+            self.can_use_env = False
         if other.unset_vars:
             self.can_use_env = False
             self.unset_vars.update(other.unset_vars)
